@@ -169,10 +169,10 @@ def scenario(e3, shape, name, known):
     dup = z3.Or(*[count(cleared, t) + count(remaining, t) > 1 for t in alltags]) if alltags else z3.BoolVal(False)
     fabricated = z3.Or(*[z3.And(e.guard, z3.Not(z3.Or(*[pay["value"] == t for t in alltags]))) for e, pay in cleared + remaining + snapshot]) if alltags and (cleared or remaining or snapshot) else z3.BoolVal(False)
     k3, k4 = known_shapes(eng, sc, tids)
-    not_known = z3.Not(z3.Or(k3, k4))
+    not_known = z3.Not(k3)          # K4 (publish before link) is repaired: a loss through that mechanism is a violation again
     race, extra = sc.race_condition()
     props = [
-        ("no_value_lost", "a pushed value is neither handed to a clearing read nor visible afterwards (outside the two known loss mechanisms)", z3.And(lost, not_known), None),
+        ("no_value_lost", "a pushed value is neither handed to a clearing read nor visible afterwards (outside the known loss mechanism K3)", z3.And(lost, not_known), None),
         ("no_value_duplicated", "a pushed value is delivered twice", dup, None),
         ("no_value_fabricated_or_read_before_written", "a read yields a value that was never pushed (uninitialised slot)", fabricated, None),
         ("no_data_race_on_slots", "slot write and slot read unordered by happens-before", race, extra),
@@ -195,8 +195,8 @@ SCEN_QUICK = [
 ]
 SCEN_THOROUGH = [
     ([("push", 1), ("push", 1)], "c05_push_push", []),
-    ([("push", 3), ("clear",)], "c05_push3_clear", ["K3", "K4"]),
-    ([("push", 3), ("data",)], "c05_push3_data", ["K4"]),
+    ([("push", 3), ("clear",)], "c05_push3_clear", ["K3"]),
+    ([("push", 3), ("data",)], "c05_push3_data", []),
     ([("push", 1), ("push", 1), ("clear",)], "c05_push_push_clear", ["K3"]),
     ([("push", 2), ("clear",), ("clear",)], "c05_push2_clear_clear", ["K3"]),
 ]
